@@ -672,3 +672,55 @@ Proof.
   intros WF V NB NS. destruct (basis_optimal_is_optimum M P ns isR B WF V NB) as (xB & pi & H1 & H2 & K & _).
   exists xB, pi. repeat split; try assumption. rewrite <- (kkt_sentinel_literal M P _ _ _ NS). exact K.
 Qed.
+
+(* ---- the accepted primal vector of the library's optimality test IS the basic solution --------------- *)
+Section ReturnedPrimal.
+  Variable P : ilp.
+  Variable B : basis.
+  Local Notation m := (bm P).
+  Local Notation n := (bn P).
+
+  (* any point that satisfies the rows and has its non-basic components at the values the statuses name
+     coincides with the basic solution on the basic components *)
+  Theorem basic_part_unique z xB :
+    length (bazl P B) = m -> nonsingular m (Bmat P B) -> xB_of P B = Some xB ->
+    (forall i, (i < m)%nat -> rowact P (qnth z) i == rhs P i) ->
+    (forall j, (j < n)%nat -> basicb B j = false -> qnth z j == xnb P B j) ->
+    forall k, (k < m)%nat -> qnth z (baz P B k) == qnth xB k.
+  Proof.
+    intros L NS HX Rows NBv k Hk.
+    unfold xB_of in HX. destruct (solve_correct _ _ _ _ HX) as [SX _].
+    set (zb := mkvec m (fun k => qnth z (baz P B k))).
+    assert (SZ : is_solution m (Bmat P B) zb (rhsN P B)).
+    { intros i Hi. unfold rhsN. rewrite qnth_mkvec by exact Hi. rarith.
+      assert (E2 : qsum (map (fun j => rmul (Aij P i j) (xnb P B j)) (nbl P B)) == qsum (map (fun j => Aij P i j * xnb P B j) (nbl P B))).
+      { apply qsum_map_ext. intros; apply rmul_ok. }
+      rewrite E2. rewrite (sum_nonbasic P B (fun j => Aij P i j * xnb P B j)).
+      assert (E1 : sumn m (fun j => mget (Bmat P B) i j * qnth zb j) == sumn m (fun k => Aij P i (baz P B k) * qnth z (baz P B k))).
+      { apply sumn_ext. intros k' Hk'. rewrite mget_Bmat by assumption. unfold zb. rewrite qnth_mkvec by exact Hk'. reflexivity. }
+      rewrite E1. rewrite <- (sum_basic P B (fun j => Aij P i j) (fun k => qnth z (baz P B k)) L).
+      rewrite <- (Rows i Hi). unfold rowact.
+      transitivity (sumn n (fun j => Aij P i j * qnth z j) - sumn n (fun j => if basicb B j then 0 else Aij P i j * xnb P B j)); [|reflexivity].
+      rewrite <- sumn_sub. apply sumn_ext. intros j Hj.
+      destruct (basicb B j) eqn:Hb.
+      - destruct (baz_pos P B j Hj Hb) as [_ E]. rewrite E. ring.
+      - rewrite (NBv j Hj Hb). ring. }
+    pose proof (solution_unique m (Bmat P B) (rhsN P B) zb xB NS SZ SX k Hk) as E.
+    unfold zb in E. rewrite qnth_mkvec in E by exact Hk. exact E.
+  Qed.
+End ReturnedPrimal.
+
+Theorem returned_basis_primal P ns isR B ps ds s xB :
+  wf_logicals (skipn ns (i_cols P)) 0 = true ->
+  opt_test P ns B ps ds = Some s -> load_ok P ns isR B = true ->
+  nonsingular (bm P) (Bmat P B) -> xB_of P B = Some xB ->
+  (forall j, (j < bn P)%nat -> basicb B j = false -> qnth (sx s ++ sslack s) j == xnb P B j) ->
+  forall k, (k < bm P)%nat -> qnth (sx s ++ sslack s) (baz P B k) == qnth xB k.
+Proof.
+  intros WL T L NS HX NBv.
+  destruct (load_ok_parts P ns isR B L) as (_ & Lb & _).
+  apply (basic_part_unique P B (sx s ++ sslack s) xB Lb NS HX); [|exact NBv].
+  intros i Hi. pose proof (opt_test_rows P ns B ps ds s WL T i Hi) as R.
+  destruct (opt_test_parts P ns B ps ds s T) as (Nc & _ & _ & Lx & Lsl & _).
+  rewrite <- (rowact_l_ok P (sx s ++ sslack s) i); [exact R|]. rewrite app_length. unfold ncols in *. lia.
+Qed.
